@@ -542,3 +542,6 @@ def check(prog: Program, rep):
     plumb.node_expansion_fill_rule(prog, RuleProxy(rep, "C11.R6"), "C10.R8")
     plumb.ignore_list_accumulates(prog, RuleProxy(rep, "C11.R6"), "C10.R8")
     _ns.arity_rule(prog, RuleProxy(rep, "C11.R6"), "C01.R5")
+    plumb.node_expansion_length_rule(prog, RuleProxy(rep, "C11.R6"), "C10.R8")
+    plumb.percentile_rules(prog, RuleProxy(rep, "C11.R6"), "C10.R8")
+
